@@ -202,10 +202,21 @@ def py_of(t):
         return Sym('error')       # improper list: list + non-list
 
 
-def real_unify(pairs, watch, sched=('all',), swap_last=False):
+def real_unify(pairs, watch, sched=('all',), swap_last=False, atoms='same'):
+    """atoms: 'same' = all terms from one engine; 'other' = right-hand sides built by another
+    engine; 'cleared' = right-hand sides built by the same engine before clear()"""
     yp = E.YP()
     vs = {}
-    ps = [(R.build_term(yp, a, vs), R.build_term(yp, b, vs)) for a, b in pairs]
+    if atoms == 'other':
+        yp2 = E.YP()
+    elif atoms == 'cleared':
+        yp2 = yp
+    else:
+        yp2 = yp
+    rhs = [R.build_term(yp2, b, vs) for a, b in pairs]
+    if atoms == 'cleared':
+        yp.clear()
+    ps = [(R.build_term(yp, a, vs), r) for (a, b), r in zip(pairs, rhs)]
     if swap_last:
         a, b = ps[-1]
         ps[-1] = (b, a)
